@@ -85,6 +85,20 @@ def verdict (high low num den : α) : Verdict :=
     else if Scalar.lt low qual then Verdict.ok
     else Verdict.bad
 
+/-- The same comparison with the IEEE sign of a zero denominator made explicit. The code computes
+`den = -(t)` with `t = (J D)ᵀ(2R + J D)`; when `J D = 0` one usually has `t = +0.` and hence `den = -0.` (`negZero = true`):
+`num / -0. = -sign(num)·inf`, so a *decrease* (`num > 0`) gives `-inf` ("unsuccessful") and an *increase* gives `+inf`
+("very successful"); `0/±0 = NaN` fails both tests. `negZero = false` is the convention of `verdict`. -/
+def verdictZ (negZero : Bool) (high low num den : α) : Verdict :=
+  if isZero den then
+    if isZero num then Verdict.bad
+    else if (Scalar.lt (k 0) num) != negZero then Verdict.very else Verdict.bad
+  else
+    let qual := num / den
+    if Scalar.lt high qual then Verdict.very
+    else if Scalar.lt low qual then Verdict.ok
+    else Verdict.bad
+
 /-- `Constant.update`: `pg['damping'] = pg['damping']` -/
 def updConstant (s : SState α) : SState α := s
 
@@ -107,6 +121,15 @@ def updTrust (h : Hyper α) (s : SState α) (v : Verdict) : SState α :=
   let r := clampMM h rd.1
   { damping := k 1 / r, radius := r, down := dn }
 
+/-- `TrustRegion.update` with its error branch: `pg` holds Python floats, so `1. / pg['damping']` and `1. / pg['radius']`
+raise `ZeroDivisionError` (inside `step()`) when the operand is zero — reachable with `TrustRegion(radius=inf)`
+(damping `1/inf = 0`) or with `min = 0` when the radius underflows. -/
+def updTrustE (h : Hyper α) (s : SState α) (v : Verdict) : Except String (SState α) :=
+  if isZero s.damping then .error "ZeroDivisionError"
+  else
+    let s' := updTrust h s v
+    if isZero s'.radius then .error "ZeroDivisionError" else .ok s'
+
 inductive Kind where
   | constant | adaptive | trust
 deriving Repr, DecidableEq, Inhabited
@@ -117,6 +140,13 @@ def stratUpd (kd : Kind) (h : Hyper α) (s : SState α) (num den : α) : SState 
   | .constant => updConstant s
   | .adaptive => updAdaptive h s (verdict h.high h.low num den)
   | .trust => updTrust h s (verdict h.high h.low num den)
+
+/-- `strategy.update` with the sign of a zero denominator and the `ZeroDivisionError` branch of TrustRegion -/
+def stratUpdZ (kd : Kind) (negZero : Bool) (h : Hyper α) (s : SState α) (num den : α) : Except String (SState α) :=
+  match kd with
+  | .constant => .ok (updConstant s)
+  | .adaptive => .ok (updAdaptive h s (verdictZ negZero h.high h.low num den))
+  | .trust => updTrustE h s (verdictZ negZero h.high h.low num den)
 
 /-- a whole history of updates -/
 def stratRun (kd : Kind) (h : Hyper α) (s : SState α) (qs : List (α × α)) : SState α :=
@@ -249,13 +279,18 @@ def outputLoss (rho : α → α) (o : Output α) : α :=
   DVec.sum (o.map (fun r => rho (DVec.normSq r)))
 
 /-- `RobustModel.loss`: with more than one kernel, `zip(kernels, residuals)` (truncating); otherwise
-`kernel[0]` for every output. `kernels = []` cannot occur (`[Trivial()]` is the default). -/
+`kernel[0]` for every output. For `kernels = []` (reachable: `LM(model, kernel=[])`) the code raises `IndexError` at
+`self.kernel[0]`; that case is `robustLossE`, the value returned here for `[]` is a totalisation and means nothing. -/
 def robustLoss (kernels : List (α → α)) (outs : List (Output α)) : α :=
   if kernels.length > 1 then
     DVec.sum (List.zipWith outputLoss kernels outs)
   else
     let rho := kernels.headD (fun x => x)
     DVec.sum (outs.map (outputLoss rho))
+
+/-- `RobustModel.loss` with its error branch: an empty kernel list raises `IndexError` (`self.kernel[0]`) -/
+def robustLossE (kernels : List (α → α)) (outs : List (Output α)) : Except String α :=
+  if kernels.isEmpty then .error "IndexError" else .ok (robustLoss kernels outs)
 
 /-- the `kernel=` argument as the user writes it: nothing, one kernel, or a list whose entries may be `None` -/
 inductive KSpec (α : Type) where
@@ -272,6 +307,8 @@ def normKernels : KSpec α → List (α → α)
 
 /-- the loss an optimizer built with `kernel=spec` reports -/
 def lossOf (spec : KSpec α) (outs : List (Output α)) : α := robustLoss (normKernels spec) outs
+/-- … including `kernel=[]` (→ `IndexError` at the first loss evaluation) -/
+def lossOfE (spec : KSpec α) (outs : List (Output α)) : Except String α := robustLossE (normKernels spec) outs
 
 /-! ### strategy constructors: what ends up in the param group (`defaults`) -/
 
